@@ -9,6 +9,10 @@ K1  (symx) real PeerManager.on_peers_subscribe / _get_recent_good_peers over a s
     per external bucket (/16, /56); onion peers at most 50 (tor) / max(10, n // 4).
 K2  (CrossHair) Peer.peers_from_features on arbitrary JSON feature dictionaries - see
     props/c16_targets.py (p_peers_from_features, p_features_any).
+K3  (symx) Peer.peers_from_features -> Peer._port / _integer with the announced tcp_port and
+    ssl_port unbounded symbolic integers (and, per shape, a concrete numeric string, bool, float,
+    None or container in one of the two slots): every port of every peer built is absent or an
+    int in 1..65535, also in what to_tuple / serialize hand on.
 """
 from vlib import symx, xhair
 from vlib.runner import Kernel
@@ -195,6 +199,67 @@ def k1_shapes(tier):
     return out
 
 
+PORT_FORMS = {
+    # the other slot holds a symbolic int; this slot holds the named concrete JSON value
+    'int': None,
+    'str-neg': '-443', 'str-zero': '0', 'str-max': '65535', 'str-over': '65536', 'str-big': '99999999999999999999',
+    'str-junk': '50001x', 'str-space': ' 50002 ', 'str-under': '5_0', 'true': True, 'false': False,
+    'float': 50001.0, 'none': None, 'list': [50001], 'dict': {'tcp_port': 50001},
+}
+
+
+def k3(shape):
+    from electrumx.lib.peer import Peer
+    eng = engine()
+    host = shape['host']
+    tcp = eng.fresh_int('tcp_port')
+    ssl = eng.fresh_int('ssl_port')
+    form = shape['form']
+    if form != 'int':
+        if shape['slot'] == 'tcp':
+            tcp = PORT_FORMS[form]
+        else:
+            ssl = PORT_FORMS[form]
+    entry = {'tcp_port': tcp, 'ssl_port': ssl}
+    if form == 'none' and shape['slot'] == 'tcp':
+        del entry['tcp_port']
+    features = {'hosts': {host: entry}}
+    if shape.get('top'):
+        # the same keys at the top level of the dictionary must not be taken for the host's ports
+        features['tcp_port'] = eng.fresh_int('top_tcp')
+        features['ssl_port'] = eng.fresh_int('top_ssl')
+    peers = Peer.peers_from_features(features, 'src')
+    eng.prove(len(peers) == 1, 'one announced host must give one peer', {'signature': 'peer-count'})
+    n_present = 0
+    for p in peers:
+        for name in ('tcp_port', 'ssl_port'):
+            port = getattr(p, name)
+            if port is None:
+                continue
+            n_present += 1
+            eng.prove(z3_and([port > 0, port < 65536]), f'{name} of a peer built from announced features is not a valid port',
+                      {'signature': 'invalid-port', 'which': name, 'form': form})
+        ser = p.serialize()
+        hosts = ser['features'].get('hosts') if isinstance(ser.get('features'), dict) else None
+        eng.prove(hosts is not None, 'serialised peer lost its hosts', {'signature': 'serialize'})
+    symx.observe('ports_present', n_present)
+
+
+def k3_shapes(tier):
+    out = []
+    hosts = ['peer.example.com', '8.8.8.8'] if tier == 'quick' else ['peer.example.com', '8.8.8.8', '2001:4860:4860::8888',
+                                                                      'abcdefghijklmnop.onion']
+    for host in hosts:
+        out.append({'host': host, 'form': 'int', 'slot': 'both'})
+        out.append({'host': host, 'form': 'int', 'slot': 'both', 'top': True})
+    for form in PORT_FORMS:
+        if form == 'int':
+            continue
+        for slot in ('tcp', 'ssl'):
+            out.append({'host': hosts[0], 'form': form, 'slot': slot})
+    return out
+
+
 def EXTRA(prop, argv):
     return xhair.main(prop, argv, text='Peer.peers_from_features on JSON-typed feature dictionaries.', return_only=True)
 
@@ -215,4 +280,15 @@ KERNELS = [
            outside='peer sets not enumerated; permutations other than rotations of more than 3 elements',
            assumptions=['time.time and random.shuffle replaced by symbolic stubs'],
            witnesses=1),
+    Kernel('K3', k3, k3_shapes,
+           desc='ports of a peer built from announced features, with the announced ports symbolic integers',
+           encodes=['electrumx/lib/peer.py:Peer.peers_from_features', 'Peer.__init__', '_port', '_integer', 'tcp_port',
+                    'ssl_port', 'serialize'],
+           bounds='one announced host (host name, IPv4; thorough also IPv6 and onion); tcp_port and ssl_port unbounded '
+                  'symbolic integers (|port| < 2**80 where the code takes a bit length), optionally the same keys at '
+                  'the top level as two more symbolic integers; per shape one slot holds a concrete non-integer JSON '
+                  'value instead (numeric strings incl. negative / zero / 65535 / 65536 / 20 digits / junk, booleans, '
+                  'float, null / missing, list, dict)',
+           outside='symbolic strings as ports (K2, CrossHair); several hosts in one dictionary',
+           witnesses=2),
 ]
